@@ -407,7 +407,7 @@ func cmdRun(args []string) {
 	}
 	theProgram = lr.P
 	fmt.Fprintf(os.Stderr, "loaded in %.1fs\n", lr.LoadSecs)
-	ex, err := newExec(lr.P, *solver, 20000)
+	ex, err := newExec(lr.P, *solver, 120000)
 	if err != nil {
 		fmt.Fprintln(os.Stderr, err)
 		os.Exit(2)
@@ -547,7 +547,7 @@ func runWorkers(P *Program, init *State, jobs []Job, verbose int, nworkers int) 
 				if ex := execs[kind]; ex != nil {
 					return ex, nil
 				}
-				ex, err := newExec(P, kind, 30000)
+				ex, err := newExec(P, kind, 120000)
 				if err == nil {
 					execs[kind] = ex
 				}
